@@ -700,7 +700,8 @@ func familyFixed() {
 }
 
 func main() {
-	run = enum.NewRun("C08", 42*time.Second, 9*time.Minute)
+	// the quick budget was 42 s before the long-string family (4-7 s) was added
+	run = enum.NewRun("C08", 48*time.Second, 9*time.Minute)
 	depth := 2
 	if run.Thorough() {
 		depth = 3
@@ -715,8 +716,8 @@ func main() {
 			"MetaObject / ObjectReference / ServiceInfo / CapabilityMap boundary values and real meta-objects through their generated readers; argument tuples of every method of three generated stubs through Receive; " +
 			"long-string family: encodings whose LAST item is a long string or raw buffer (content lengths 65535, 65536, 65537, 70000; thorough also 4095, 4096, 4097, 131073, 1048577; content byte i = 0x21 + (i + 7*(i>>8) + 13*(i>>12) + 29*(i>>16)) % 94) at 13 entry points " +
 			"(basic.ReadString; sigreader and reflect-decode of s, (is), [s]; newvalue of m<s>, m<r>, m<(is)>; ReadMetaObject description; ReadServiceInfo objectUid; ReadCapabilityMap {k: m<s>}), " +
-			"cut at every position (thorough: every encoding up to 70000 content bytes; quick: the ReadString and m<s> encodings) or at the stated set {every k < c+16, every k >= len-16, c + stride*j + {-1,0,+1} for every j} with c = offset of the first content byte " +
-			"(quick: the other 11 entry points, stride 256; both tiers: content above 70000 bytes, stride 4096), each prefix under the three deliveries; the exact numbers are in the note 'long-string corpus'. " +
+			"cut at every position (up to 70000 content bytes: the ReadString encodings, in the thorough tier also sigreader s, reflect-decode s, newvalue m<s> and m<r>) or at the stated set {every k < c+16, every k >= len-16, c + stride*j + {-1,0,+1} for every j} with c = offset of the first content byte " +
+			"(the other entry points, stride 256; content above 70000 bytes, stride 4096), each prefix under the three deliveries; the exact numbers are in the note 'long-string corpus'. " +
 			"For this family the full encoding is judged too: it must be accepted, consumed exactly and decode to the original under 5 deliveries (fingerprints full/...). " +
 			"evaluations counts decoder runs. A case class is (decoder, signature shape or decoder field path, element kind and part containing the first missing byte, outcome); " +
 			"distinct_nontrivial counts the distinct classes executed"
@@ -730,7 +731,7 @@ func main() {
 			"encodings are produced by the reference model written from doc/about-qimessaging.md",
 			"a decoder may behave differently according to the dynamic type of its io.Reader; two reader types are used: the check's own fragmenting reader and *bytes.Buffer (what bus/object.go, bus/signal.go, bus/client.go, bus/proxy.go and the generated stubs pass); other reader types (*bytes.Reader, bufio.Reader, net.Conn) are not enumerated",
 			"no strict prefix of a valid encoding is itself a complete encoding (every decoder consumes exactly what it needs), so no cut position is excluded",
-			"strings longer than 255 bytes occur only in the long-string family and only as the last item decoded; their lengths are chosen around 2^12, 2^16, 2^17 and 2^20 (plausible internal thresholds), other lengths between 256 and 10 MiB (MaxStringSize) are not enumerated; in the quick tier 11 of the 13 long-string entry points are cut at a stated set of positions (around every multiple of 256 content bytes, the first and the last 16), not at every position",
+			"strings longer than 255 bytes occur only in the long-string family and only as the last item decoded; their lengths are chosen around 2^12, 2^16, 2^17 and 2^20 (plausible internal thresholds), other lengths between 256 and 10 MiB (MaxStringSize) are not enumerated; 12 (quick) or 8 (thorough) of the 13 long-string entry points are cut at a stated set of positions (around every multiple of 256 content bytes, the first and the last 16), not at every position",
 			"Object.registerEventWithSignature(IILs) is the only stub method ending in a string; it answers every call with an error, so a truncated string accepted there could not be told from one refused: the long-string family does not drive stubs",
 			"generated argument decoders are reached through Receive of the bus/logger stubs and the generic Object actions; the ServiceDirectory stub needs an implementor with an unexported method and is not driven",
 			"a panic on a truncated input is filed as a violation with the clause 'panic' (it is not an error report)",
